@@ -4,11 +4,14 @@ mod alloc;
 mod bfs;
 mod crash;
 mod explore;
+mod grid;
 mod json;
 mod lens;
+mod mini;
 mod ops;
 #[cfg(feature = "auto")]
 mod policy;
+mod seeds;
 mod world;
 
 use std::collections::HashMap;
@@ -155,6 +158,77 @@ fn bfs_json<O>(engine: &str, r: &bfs::BfsResult<O>, pretty: impl Fn(&[O]) -> Str
     ])
 }
 
+/// Runs the mini explorer over a list of payload types (in parallel over the types) and emits the usual JSON
+fn mini_main(engine: &str, m: &HashMap<String, String>, cases: Vec<(String, fn() -> Box<dyn mini::TypedWorld>)>, cfg: mini::MiniCfg, threads: usize) -> ! {
+    use std::sync::atomic::{AtomicUsize, Ordering};
+    use std::sync::Mutex;
+    let t0 = std::time::Instant::now();
+    if let Some(h) = m.get("history") {
+        alloc::init_thread();
+        let ops = mini::dec(h);
+        let (label, make) = &cases[0];
+        let mut w = make();
+        for i in 0..=ops.len() {
+            let (vs, _) = mini::run(w.as_mut(), &cfg, &ops[..i], None);
+            println!("[{}] after {:?}: violations {:?}", label, if i == 0 { None } else { Some(ops[i - 1]) }, vs.iter().map(|v| format!("{} {}: {}", v.prop, v.pred, v.msg)).collect::<Vec<_>>());
+            if !vs.is_empty() {
+                std::process::exit(1);
+            }
+        }
+        std::process::exit(0);
+    }
+    let next = AtomicUsize::new(0);
+    let results: Mutex<Vec<(String, u64, u64, u64, u64, u64, u64, usize, Option<mini::MiniFound>, (usize, usize))>> = Mutex::new(Vec::new());
+    std::thread::scope(|sc| {
+        for _ in 0..threads.max(1) {
+            sc.spawn(|| {
+                explore::warm_up_thread();
+                loop {
+                    let i = next.fetch_add(1, Ordering::Relaxed);
+                    if i >= cases.len() {
+                        break;
+                    }
+                    let (label, make) = &cases[i];
+                    let mut w = make();
+                    let sa = w.size_align();
+                    let mut st = mini::MiniStats { histories: 0, executions: 0, collected_cycles: 0, rc_drops: 0, unwrap_ok: 0, upgrades_some: 0, distinct_final_shapes: Default::default() };
+                    let found = mini::enumerate(w.as_mut(), &cfg, &mut st);
+                    results.lock().unwrap().push((label.clone(), st.histories, st.executions, st.collected_cycles, st.rc_drops, st.unwrap_ok, st.upgrades_some, st.distinct_final_shapes.len(), found, sa));
+                }
+            });
+        }
+    });
+    let mut res = results.into_inner().unwrap();
+    res.sort_by(|a, b| a.0.cmp(&b.0));
+    let states: usize = res.iter().map(|r| r.7).sum();
+    let hist: u64 = res.iter().map(|r| r.1).sum();
+    let execs: u64 = res.iter().map(|r| r.2).sum();
+    let found: Vec<J> = res
+        .iter()
+        .filter_map(|r| r.8.as_ref().map(|f| (r, f)))
+        .map(|(r, f)| J::obj(vec![("case", J::s(&r.0)), ("history", J::s(&mini::enc(&f.history))), ("history_pretty", J::s(&format!("[{}] {:?}", r.0, f.history))), ("epilogue", J::s("")), ("epilogue_pretty", J::s("")), ("violations", J::Arr(f.violations.iter().map(viol_json).collect()))]))
+        .collect();
+    let ok = found.is_empty();
+    let out = J::obj(vec![
+        ("lens", J::s(engine)),
+        ("build", J::s(&build_cfg_name())),
+        ("states", J::n(states as f64)),
+        ("transitions", J::n(hist as f64)),
+        ("executions", J::n(execs as f64)),
+        ("max_depth_completed", J::n(cfg.depth as f64)),
+        ("fixpoint", J::Bool(false)),
+        ("cut_reason", J::s(&format!("all histories up to depth {} over {} payload types", cfg.depth, res.len()))),
+        ("samples", J::Arr(res.iter().take(6).map(|r| J::s(&format!("{} (size {}, align {}): {} histories, {} distinct final shapes, {} collector drops, {} rc drops, {} unwraps, {} upgrades", r.0, r.9 .0, r.9 .1, r.1, r.7, r.3, r.4, r.5, r.6))).collect())),
+        ("cases", J::Arr(res.iter().map(|r| J::obj(vec![("case", J::s(&r.0)), ("size", J::n(r.9 .0 as f64)), ("align", J::n(r.9 .1 as f64)), ("histories", J::n(r.1 as f64)), ("distinct_final_shapes", J::n(r.7 as f64))])).collect())),
+        ("vacuity", J::obj(vec![("collector_drops", J::n(res.iter().map(|r| r.3).sum::<u64>() as f64)), ("rc_drops", J::n(res.iter().map(|r| r.4).sum::<u64>() as f64)), ("unwrap_ok", J::n(res.iter().map(|r| r.5).sum::<u64>() as f64)), ("upgrades_some", J::n(res.iter().map(|r| r.6).sum::<u64>() as f64))])),
+        ("machinery_errors", J::Arr(vec![])),
+        ("found", J::Arr(found)),
+        ("lens_args", J::s(&std::env::args().skip(1).collect::<Vec<_>>().join(" "))),
+        ("wall_s", J::n(t0.elapsed().as_secs_f64())),
+    ]);
+    emit(m, &out, ok);
+}
+
 fn emit(m: &HashMap<String, String>, out: &J, ok: bool) -> ! {
     let text = out.to_string();
     match m.get("out") {
@@ -195,6 +269,7 @@ fn main() {
                 seed: getf("seed", 0.0) as u64,
                 fresh_thread_depth: getf("fresh", 3.0) as usize,
                 focus: m.get("focus").cloned(),
+                seed_family: m.get("seed-family").cloned(),
             };
             let r = explore::explore(&cfg, &lim);
             let found_json = |f: &explore::Found| {
@@ -231,7 +306,10 @@ fn main() {
                 ("executions", J::n(r.executions as f64)),
                 ("fault_transitions", J::n(r.fault_transitions as f64)),
                 ("max_depth_completed", J::n(r.max_depth_completed as f64)),
-                ("fixpoint", J::Bool(r.fixpoint)),
+                ("fixpoint", J::Bool(r.fixpoint && lim.seed_family.is_none())),
+                ("seed_family", lim.seed_family.as_ref().map_or(J::Null, |s| J::s(s))),
+                ("seed_prefixes", J::n(r.seed_prefixes as f64)),
+                ("seed_states", J::n(r.seed_states as f64)),
                 ("cut_reason", r.cut_reason.as_ref().map_or(J::Null, |s| J::s(s))),
                 ("states_with_nonempty_buffer", J::n(r.states_with_buffer as f64)),
                 ("double_replays", J::n(r.double_replays as f64)),
@@ -301,6 +379,15 @@ fn main() {
                 std::process::exit(2);
             }
             std::process::exit(if r.violations.is_empty() { 0 } else { 1 });
+        },
+        "grid" => {
+            let getf = |k: &str, d: f64| -> f64 { m.get(k).map_or(d, |v| v.parse().expect("bad number")) };
+            let all = grid::cases();
+            let full = m.get("set").map_or(false, |s| s == "full");
+            let only = m.get("case").cloned();
+            let cases: Vec<&grid::GridCase> = all.iter().filter(|c| only.as_ref().map_or(full || c.quick, |o| &c.label == o)).collect();
+            let cfg = mini::MiniCfg { nobj: getf("n", 2.0) as usize, depth: getf("depth", 5.0) as usize, weak_ops: true, cyclic_ops: true, prop_override: None };
+            mini_main("grid", &m, cases.iter().map(|c| (c.label.clone(), c.make)).collect(), cfg, getf("threads", 16.0) as usize);
         },
         #[cfg(feature = "auto")]
         "policy" => {
